@@ -83,7 +83,7 @@ func init() {
 		s, sep := args[0].T, args[1].T
 		r := e.havoc(f.name("idx"), SBV64)
 		// r == -1 || 0 <= r && r + len(sep) <= len(s) && s[r:r+len(sep)] == sep ; r is the first such position
-		fits := and(sle(i64(0), r), sle(bvAdd(r, sLen(sep)), sLen(s)))
+		fits := and(sle(i64(0), r), sle(r, sLen(s)), sle(bvAdd(r, sLen(sep)), sLen(s)))
 		e.assume(or(eq(r, i64(-1)), fits))
 		_, _, h := byteHeap(e, f.st)
 		if sLen(sep).isC && sLen(sep).c <= smallN {
